@@ -71,8 +71,6 @@ JDfaOp(e) ==
           [] e.name = "make_total_in_place" -> FaEquiv(C, A)
   IN Bad("valid", ~valid)
      \cup (IF valid THEN Bad("language_is_operation_exact", ~langok) ELSE {})
-     \cup Bad("same_alphabet", C.S # A.S)
-     \cup (IF e.name \in {"make_total_in_place"} THEN {} ELSE Bad("input_unchanged", e.post # e.a))
 
 (* C14: finite-language helpers; languages are sequences of words *)
 JLangOp(e) ==
